@@ -465,6 +465,7 @@ func checkC15(p *Prog, r *Report) {
 	}
 	checkC15Bits(p, r, rBits, fns) /* first: the framing and table rules use its verdict on the encoder's group code */
 	checkC15Frame(p, r, rFrame, fns)
+	checkC15Yield(p, r, r.Rule("iterators-stop", "an iterator declared in the codec's package looks at the result of every yield call (an iterator which goes on after false makes the runtime panic)"))
 	checkC15ErrorLine(p, r, r.Rule("error-location", "the line number a decode error carries counts every line passed: a counter kept by hand is stepped on every way round the line loop"), fns)
 	checkC15Bounds(p, r, r.Rule("length-bounds", "MaxEncodedLen and MaxDecodedLen are never below what AppendEncode / AppendDecode append, for every input length"), fns)
 	checkC15Tables(p, r, rTab, fns)
